@@ -90,7 +90,7 @@ def handle (j : Json) : Except String Json := do
   | "badrows" =>
     let db ← dbOf (← getStr j "db")
     let bad := db.units.filter (fun r =>
-      !(r.notRewritten db.legacy && r.derivedOk db.legacy && r.isFirst db))
+      !(r.notRewritten db.legacy && r.derivedOk db))
     pure (Json.mkObj [("rows", Json.arr (bad.map (fun r => symJ r.sym)).toArray)])
   | "info" =>
     let db ← dbOf (← getStr j "db")
